@@ -143,6 +143,7 @@ theorem rdRel_eng : EngRel rdRel where
   ctx := fun _ _ => rfl
   trace := fun _ _ => rfl
   err := fun _ _ => rfl
+  expCut := fun _ _ => rfl
   cfg := fun _ _ => rfl
   hist := fun _ _ => rfl
   complete := by intro s; unfold complete rdRel; split <;> rfl
